@@ -604,7 +604,10 @@ class HyperParameters:
         for hp in self.space:
             if self.is_active(hp):
                 if hp.name not in self.values:
-                    self.values[hp.name] = hp.random_sample()
+                    # The value a build function gets for an entry it
+                    # declares for the first time: an unseeded random value
+                    # here would make trials differ from run to run.
+                    self.values[hp.name] = hp.default
             elif not self.is_active(hp.name):
                 # Another hyperparameter with the same name may be active.
                 self.values.pop(hp.name, None)
